@@ -1,5 +1,5 @@
 """C02 — connection codes are single-use, short-lived and die with the booking"""
-from tiecommon import TIE_LOCKS
+from tiecommon import TIE_LOCKS, TIE_TTLCODE
 import vlib
 from vlib import hx
 
@@ -19,7 +19,7 @@ THEOREMS = [(f"TtlCode.{n}", P) for n in
            [(f"TieTtlCode.{n}", "Relay.Tie.TtlCode") for n in
             ["submit_tie", "exchange_tie", "exchange_unknown", "clean_tie", "deleteByBooking_tie", "count_tie", "good_after", "coverage"]]
 BIDS = ["b1", "b2", "b3", ""]
-THEOREMS = THEOREMS + TIE_LOCKS
+THEOREMS = THEOREMS + TIE_LOCKS + TIE_TTLCODE
 
 
 
